@@ -623,7 +623,7 @@ func genC47(c *hlib.Ctx) {
 		c.Count("expand:" + strings.Fields(out)[0])
 	}
 	// ---- histories of apply
-	n = c.N(250, 5000)
+	n = c.N(250, 3000)
 	for i := 0; i < n; i++ {
 		hasCfg := r.Chance(3, 4)
 		hasOut := hasCfg && r.Chance(3, 4)
